@@ -1289,6 +1289,7 @@ package collection
 //@   nopanic
 //@   modifies view(this), cstate(boundrecv(ranker))
 //@   ensures[C09] sameelems(view(this), old(view(this)))
+//@   ensures[C09] rpre(ranker) ==> ordered(ranker, view(this), 0, len(view(this)))
 //@ iface Sortable.ReverseValues
 //@   nopanic
 //@   let n := len(view(this))
